@@ -1,6 +1,7 @@
 package fio
 
 import "os"
+import "github.com/XiXi-2024/xixi-kv/vhook"
 
 // FileIO 标准文件 IO 实现
 type FileIO struct {
@@ -8,6 +9,7 @@ type FileIO struct {
 }
 
 func NewFileIO(fileName string) (*FileIO, error) {
+	vhook.IO("open", fileName, -1, 0, nil)
 	// 打开文件, 不存在则创建
 	fd, err := os.OpenFile(
 		fileName,
@@ -25,14 +27,25 @@ func (fio *FileIO) Read(b []byte, offset int64) (int, error) {
 }
 
 func (fio *FileIO) Write(b []byte) (int, error) {
+	if vhook.On {
+		vhook.IO("write", fio.fd.Name(), -1, len(b), b)
+		defer vhook.IO("writeDone", fio.fd.Name(), -1, len(b), nil)
+	}
 	return fio.fd.Write(b)
 }
 
 func (fio *FileIO) Sync() error {
+	if vhook.On {
+		vhook.IO("sync", fio.fd.Name(), -1, 0, nil)
+		defer vhook.IO("syncDone", fio.fd.Name(), -1, 0, nil)
+	}
 	return fio.fd.Sync()
 }
 
 func (fio *FileIO) Close() error {
+	if vhook.On {
+		vhook.IO("close", fio.fd.Name(), -1, 0, nil)
+	}
 	return fio.fd.Close()
 }
 
